@@ -124,6 +124,16 @@ def run(ck):
               "%s is not located from the left with the expected separator (forward: %s, reverse: %s): names whose later part contains the separator are split wrongly"
               % (what, [t["f"]["name"] for (_, t) in fw], [t["f"]["name"] for (_, t) in rv]), f.loc())
     name_grammar_rules(ck)
+    # Timestamp / Duration text forms: the numeric part is parsed at the width of the stored value (u64 milliseconds): parsing
+    # through a narrower or signed type refuses values the type can hold and print
+    for tyname in ("Timestamp", "Duration"):
+        g = getfn(ck, "rs", CC, "<" + CC + "::types::" + tyname + " as std::str::FromStr>::from_str")
+        if not g:
+            continue
+        ps_ = [(bi, (t["f"].get("gargs") or [""])[-1]) for (bi, t) in g.calls(r"str::<impl str>::parse$|from_str_radix$")]
+        okp = len(ps_) >= 1 and all(ty_ == "u64" for (_, ty_) in ps_)
+        ck.ob("CALLEE", g.path, "numeric-part-parsed-as-u64", okp, "the number is parsed as u64, the width of the stored milliseconds" if okp else
+              "the numeric part is parsed as %s: values the type holds (and prints) do not parse back" % sorted(set(ty_ for (_, ty_) in ps_)), g.loc(ps_[0][0]) if ps_ else g.loc())
     # Amount text form: every representable amount parses back. Digits are accumulated with checked_mul(10) / checked_add(d)
     # only - a hand-written overflow guard in front of a raw `acc * 10 + d` refuses (or wraps for) values next to u64::MAX
     AP = "<" + CC + "::types::Amount as std::str::FromStr>::from_str"
